@@ -189,6 +189,37 @@ func ruleC15Codec(c *Ctx) {
 
 func ruleC15Client(c *Ctx) {
 	const rule = "C15-CLIENT"
+	// at most once: a request whose deadline passed is not sent again (it is usually slow, not
+	// lost: the replica would apply it twice and count two revisions for one write)
+	{
+		vals, stores := []string{}, 0
+		for _, fn := range c.P.AllFns {
+			R := NewRenderer(fn)
+			eachInstr(fn, func(in ssa.Instruction) {
+				if s, ok := in.(*ssa.Store); ok {
+					if g, ok := s.Addr.(*ssa.Global); ok && short(g.String()) == "rpc.opRetries" {
+						stores++
+						vals = append(vals, R.V(s.Val))
+					}
+				}
+			})
+		}
+		okv := true
+		for _, v := range vals {
+			if v != "0" {
+				okv = false
+			}
+		}
+		if k, isConst := c.P.pkgIntConst("rpc", "opRetries"); isConst && k != 0 {
+			okv = false
+			vals = append(vals, fmt.Sprint(k))
+		}
+		if okv {
+			c.OK(rule, "rpc.opRetries | a timed-out request is never re-sent", "", fmt.Sprintf("opRetries is 0 (%d initialising store)", stores), false)
+		} else {
+			c.Bad(rule, "rpc.opRetries | a timed-out request is never re-sent", "", "opRetries can be "+strings.Join(vals, ", ")+": a request that timed out is sent again although the replica may still apply the first copy (two revisions counted for one write; the reply of the first copy completes the wrong wait)", nil)
+		}
+	}
 	c.Doc(rule, "rpc.Client: the pending map and the sequence counter are touched only by handleRequest/handleResponse/replyError/nextSeq, which are reachable only from the single loop goroutine started once in NewClient; a request gets a fresh pre-incremented Seq, is inserted in the map before it is queued for sending; a reply is matched by Seq, removed from the map and completed exactly once on a buffered channel; every operation waits with a deadline and refuses early when the client is poisoned; on time-out / transport error the client is poisoned and every pending request is failed")
 	owners := map[string]bool{fCli + "handleRequest": true, fCli + "handleResponse": true, fCli + "replyError": true, fCli + "nextSeq": true}
 	for _, fn := range prodFns(c.P) {
